@@ -60,9 +60,9 @@ theorem same_origin_location_invalidated (cfg : Cfg) (req : Req) (respH : Header
     (hne : (Header.get respH hdr).isEmpty = false) (hg : cfg.loc hdr = some g)
     (hs : sameOrigin req.scheme req.host g.scheme g.host = true)
     (h : Run (invalidateLocation cfg req respH hdr deleted cont) tr r) :
-    ∃ a tr', tr = Step.getRefs (makeURLKeyOf g.kScheme g.kHost g.kPath g.kQuery g.kOpaq) a :: tr' ∧
+    ∃ a tr', tr = Step.getRefs g.key a :: tr' ∧
       ∃ tr1 tr2 d, tr' = tr1 ++ tr2 ∧ Run (cont d) tr2 r ∧
-        makeURLKeyOf g.kScheme g.kHost g.kPath g.kQuery g.kOpaq ∈ d ∧ (∀ ref ∈ a.getD [], ref.id ∈ d) ∧
+        g.key ∈ d ∧ (∀ ref ∈ a.getD [], ref.id ∈ d) ∧
         (∀ x ∈ d, x ∈ deleted ∨ Step.delete x ∈ tr1) :=
   invalidateLocation_same cfg req respH hdr deleted cont tr r g hne hg hs h
 
